@@ -100,7 +100,7 @@ def cert_abs(c):
          'options': _opts(c.critical_options if v01 else c.constraints), 'extensions': _opts(c.extensions) if v01 else [],
          'reserved': list(c.reserved), 'sigkey': list(bytes(c.signature_key.key_bytes)),
          'sig_type': list(c.signature.signature_type.value.code.encode('ascii')), 'sig_data': list(c.signature.signature_data),
-         'alg_matches_key': any(alg.startswith(x) for x in family_names) and ('cert-v01' in alg) == v01}
+         'alg_matches_key': any(alg.startswith(x) for x in family_names) and (('-cert-v01@' if v01 else '-cert-v00@') in alg)}
     try:
         sk = key_abs(c.signature_key)
     except Exception:  # pylint: disable=broad-except
